@@ -564,6 +564,8 @@ fn main() {
     rep.oblige("adaptor_histories", 1);
     rep.oblige("tight_interval_checks", 1);
     rep.oblige("window_handed_over_rotated", 1);
+    rep.oblige("clone_conformance_scripts", 1);
+    clone_conformance(&mut rep, cli.seed);
     rep.oblige("drift_dominated_checks", 0);
 
     // job list: (format, window, history, channels)
@@ -612,6 +614,31 @@ fn main() {
     flush(&mut rep);
     rep.note(format!("configuration: sqrt = {}", if sqrt == SqrtKind::Approx { "no_std bit-trick approximation (7% + 2^-60/2^-500)" } else { "std exact" }));
     finish(&cli, rep, t0);
+}
+
+/// `clone()` / `clone_from()` of a detector mid-stream (also onto a detector with another history
+/// and another rotation) must carry the whole state: window AND running sum
+fn clone_conformance(rep: &mut Report, seed: u64) {
+    let mut rng = Rng::derive(seed, &[112]);
+    let mut n = 0;
+    for win in [1usize, 2, 5, 16] {
+        let cs = format!("kind=clone;n={}", win);
+        let mk = |v: u64| Rms::<[f32; 2], Vec<[f32; 2]>>::new(ring_buffer::Fixed::from_raw_parts((v as usize * 3 + 1) % win, vec![[0.0f32; 2]; win]));
+        let step = |r: &mut Rms<[f32; 2], Vec<[f32; 2]>>, i: u64| {
+            if i % 23 == 22 {
+                r.reset();
+            }
+            let x = ((i * 37 % 101) as f32 - 50.0) / 64.0;
+            let o = r.next([x, -x * 0.5]);
+            [o[0].to_bits(), o[1].to_bits()]
+        };
+        n += checks::cloneconf::check_clone_state("rms", &cs, mk, step, rep, &mut rng, 24, 3 * win + 4, 2 * win + 3);
+        let mk64 = |v: u64| Rms::<f64, Vec<f64>>::new(ring_buffer::Fixed::from_raw_parts((v as usize + 2) % win, vec![0.0f64; win]));
+        let step64 = |r: &mut Rms<f64, Vec<f64>>, i: u64| r.next_squared(((i * 29 % 97) as f64 - 40.0) / 128.0).to_bits();
+        n += checks::cloneconf::check_clone_state("rms", &cs, mk64, step64, rep, &mut rng, 12, 3 * win + 4, 2 * win + 3);
+    }
+    rep.eval(n);
+    rep.hit_n("clone_conformance_scripts", n);
 }
 
 /// history lengths for window n
